@@ -10,7 +10,7 @@
      evaluator/literals/eval.cpp           evaluate_variable_typed (is_enum)  -> m_eval_var (argument passing, assignment)
      evaluator/core/evaluator.cpp          x.variant / x.value                -> m_obs_variant, m_obs_value
      evaluator/operators/ternary.cpp       evaluate_error_propagation(_typed) -> m_qmark
-     handlers/statements/expression.cpp    handle_expression_statement        -> swallow (QStmt)
+     handlers/statements/expression.cpp    handle_expression_statement        -> QStmt (rethrows `e?;`)
      evaluator/operators/error_handling.cpp classify_runtime_error,
                                            build_result_ok / build_result_err,
                                            evaluate_try_like_expression       -> classify, try_like, m_run_t
